@@ -16,6 +16,8 @@ open Std DepsDev DepsDev.Semver DepsDev.Ref DepsDev.Proofs DepsDev.Proofs.C09
 
 variable {s : System}
 
+set_option linter.unusedSimpArgs false
+
 /-- `r` is a non-empty span whose lower bound is one of `mins`, at or above all of them, and — if
 `r` is a vector — whose upper bound is one of `maxs`, at or below all of them. -/
 structure Picks (s : System) (r : Span) (mins maxs : List Version) : Prop where
@@ -184,5 +186,82 @@ theorem intersectOne_struct {a b r : Span} {mins maxs : List Version} {c d : Ver
           grind
         · rw [h'] at hx; cases hx
           exact hhi_le y hy
+
+/-- The lower / upper bounds collected by the fold. -/
+def foldMins : List Span → List Version → List Version
+  | [], m => m
+  | b :: t, m => foldMins t (b.min.toList ++ m)
+def foldMaxs : List Span → List Version → List Version
+  | [], m => m
+  | b :: t, m => foldMaxs t (b.max.toList ++ m)
+
+theorem mem_foldMins {x : Version} : ∀ (l : List Span) (m : List Version),
+    x ∈ foldMins l m ↔ x ∈ m ∨ ∃ b ∈ l, b.min = some x := by
+  intro l
+  induction l with
+  | nil => intro m; simp [foldMins]
+  | cons b t ih =>
+    intro m
+    rw [foldMins, ih]
+    simp only [List.mem_append, Option.mem_toList, Option.mem_def, List.mem_cons, exists_eq_or_imp]
+    constructor
+    · rintro ((h | h) | h)
+      · exact Or.inr (Or.inl h)
+      · exact Or.inl h
+      · exact Or.inr (Or.inr h)
+    · rintro (h | h | h)
+      · exact Or.inl (Or.inr h)
+      · exact Or.inl (Or.inl h)
+      · exact Or.inr h
+
+theorem mem_foldMaxs {x : Version} : ∀ (l : List Span) (m : List Version),
+    x ∈ foldMaxs l m ↔ x ∈ m ∨ ∃ b ∈ l, b.max = some x := by
+  intro l
+  induction l with
+  | nil => intro m; simp [foldMaxs]
+  | cons b t ih =>
+    intro m
+    rw [foldMaxs, ih]
+    simp only [List.mem_append, Option.mem_toList, Option.mem_def, List.mem_cons, exists_eq_or_imp]
+    constructor
+    · rintro ((h | h) | h)
+      · exact Or.inr (Or.inl h)
+      · exact Or.inl h
+      · exact Or.inr (Or.inr h)
+    · rintro (h | h | h)
+      · exact Or.inl (Or.inr h)
+      · exact Or.inl (Or.inl h)
+      · exact Or.inr h
+
+/-- **The AND fold keeps track of its bounds**: if the candidate `v` lies in every operand span, the
+single span the fold returns takes its lower bound from the operands' lower bounds, at or above all
+of them, and (when a vector) its upper bound from their upper bounds, at or below all of them. -/
+theorem andFold_struct (v : Version) : ∀ (rest : List Span) (a : Span) (mins maxs : List Version) (r : Span),
+    Picks s a mins maxs → (∀ x ∈ rest, SpanOK s x) → andFold [a] rest = .ok [r] → has s a v = true →
+    (∀ x ∈ rest, has s x v = true) → Picks s r (foldMins rest mins) (foldMaxs rest maxs) := by
+  intro rest
+  induction rest with
+  | nil =>
+    intro a mins maxs r ha _ h _ _
+    simp only [andFold] at h
+    injection h with h
+    injection h with h _
+    subst h
+    exact ha
+  | cons b rest ih =>
+    intro a mins maxs r ha hok h hav hrest
+    have triv : ∀ sp : Span, AllB (fun _ => True) sp := fun _ => ⟨fun _ _ => trivial, fun _ _ => trivial⟩
+    have hbok := hok b List.mem_cons_self
+    have hbv := hrest b List.mem_cons_self
+    have hbne : b.rank ≠ .empty := fun he => by rw [has_empty he] at hbv; cases hbv
+    obtain ⟨c, d, hc, hd, -, -, -, -, -, -⟩ := hbok.bounds hbne
+    obtain ⟨r1, e1, ⟨hr1, -⟩, hv1⟩ := intersect_one (s := s) (fun _ => True) ⟨ha.ok, triv a⟩ ⟨hbok, triv b⟩
+    have hr1v : has s r1 v = true := by rw [hv1 v, hav, hbv]; rfl
+    have hr1ne : r1.rank ≠ .empty := fun he => by rw [has_empty he] at hr1v; cases hr1v
+    have hp1 := intersectOne_struct ha hbok hbne hc hd e1 hr1ne
+    simp only [andFold, e1, bind, Outcome.bind] at h
+    have := ih r1 (c :: mins) (d :: maxs) r hp1 (fun x hx => hok x (List.mem_cons_of_mem _ hx)) h hr1v
+      (fun x hx => hrest x (List.mem_cons_of_mem _ hx))
+    simpa only [foldMins, foldMaxs, hc, hd, Option.toList_some, List.singleton_append] using this
 
 end DepsDev.Proofs.C03
